@@ -98,8 +98,10 @@ PairOK(p) == /\ QoSOf(p) = "BE"  => ClassOf(p) \notin {"koord-prod", "none"}
              /\ QoSOf(p) = "LSR" => ClassOf(p) = "koord-prod"
 \* LSR/LSE pods request a whole number of CPUs
 WholeCPU(p) == QoSOf(p) \in {"LSR", "LSE"} => Milli(PodReq(p, "cpu")) % 1000 = 0
-\* reclaimed (batch) resources are only requested by BE pods
-BatchOnlyBE(p) == (PodReq(p, "batch-cpu") > 0 \/ PodReq(p, "batch-memory") > 0) => QoSOf(p) = "BE"
+\* reclaimed (batch) resources are only requested by BE pods.  "The pod requests r" = its pod-level request of r is
+\* positive = some container, init container or the overhead declares a positive request of r (amounts are never negative)
+Requests(p, r) == (\E c \in Conts(p) : c.req[r] > 0) \/ p.oh[r] > 0
+BatchOnlyBE(p) == (Requests(p, "batch-cpu") \/ Requests(p, "batch-memory")) => QoSOf(p) = "BE"
 \* QoS and priority class never change on update
 Immutable(old, new) == QoSOf(old) = QoSOf(new) /\ ClassOf(old) = ClassOf(new)
 
